@@ -10,10 +10,10 @@ run_txn(cfg, plan, silence) -> observation dict (plain data):
 from . import clock as VC
 from . import boot
 from .lab_stack import StackLab, lib as lablib, pattern, Runaway
-from .ref import apci as RA
+from .ref import apci as RA, npci as RN
 
 DEFAULT = dict(c_seg="segmentedBoth", s_seg="segmentedBoth", c_apdu=1024, s_apdu=1024, c_segs=16, s_segs=16, c_win=2, s_win=2,
-               retries=3, req_len=10, rsp_len=10, rsp="ack", think=0.0, iocb=False,
+               retries=3, req_len=10, rsp_len=10, rsp="ack", think=0.0, iocb=False, nreq=1,
                apdu_timeout=3000, seg_timeout=1500, app_timeout=3000, know=False)
 
 _apps = None
@@ -24,7 +24,7 @@ def apps():
     if _apps is None:
         L = lablib()
         A = L.apdu
-        from bacpypes.errors import RejectException, AbortException
+        from bacpypes.errors import InconsistentParameters, OutOfResources, ExecutionError
         from bacpypes.basetypes import ErrorType
 
         class Base(object):
@@ -47,6 +47,8 @@ def apps():
             def confirmation(self, apdu):
                 self.outcomes.append(describe(apdu))
                 self.stack.outcome_delivered = True
+                self.stack.delivered.add(getattr(apdu, "apduInvokeID", None))
+                L.core.deferred(self.stack.snapshot)
 
         class IOClientApp(L.app.ApplicationIOController):
             _startup_disabled = True
@@ -71,6 +73,8 @@ def apps():
                 else:
                     self.outcomes.append((VC.clk.now, "inconsistent-iocb", None, repr((iocb.ioResponse, iocb.ioError)), "iocb"))
                 self.stack.outcome_delivered = True
+                self.stack.delivered.add(iocb.args[0].apduInvokeID)
+                L.core.deferred(self.stack.snapshot)
 
         def describe(apdu):
             now = VC.clk.now
@@ -104,7 +108,12 @@ def apps():
                 if self.rsp == "silent":
                     return
                 if self.rsp == "reject":
-                    raise RejectException(9)          # unrecognizedService code is 9; any reason will do
+                    raise InconsistentParameters("harness: reject this request")
+                if self.rsp == "abort":
+                    raise OutOfResources("harness: abort this request")
+                if self.rsp == "exec-error":
+                    # what any service helper does to refuse a request: Application.indication turns it into an Error PDU
+                    raise ExecutionError(errorClass="services", errorCode="serviceRequestDenied")
                 if self.think > 0:
                     t = L.task.FunctionTask(self._answer, apdu)
                     t.install_task(delta=self.think)
@@ -174,6 +183,15 @@ def run_txn(cfg, plan=None, silence=None, fate=None, horizon=None):
     srv = lab.add_stack(2, ServerApp, segmentation=c["s_seg"], max_apdu=c["s_apdu"], max_segs=c["s_segs"],
                         window=c["s_win"], retries=c["retries"], apdu_timeout=c["apdu_timeout"], seg_timeout=c["seg_timeout"], app_timeout=c["app_timeout"])
     cli.outcome_delivered = False
+    cli.delivered = set()
+    cli.at_outcome = []
+
+    def snapshot():
+        # what the requesting stack still holds right after the outcome was delivered (same instant)
+        now = VC.clk.now
+        cli.at_outcome.append(dict(tr=len(cli.smap.clientTransactions), timers=len([t for t in cli.timers() if t.taskTime > now]),
+                                   queue=len(getattr(cli.app, "queue_by_address", {}))))
+    cli.snapshot = snapshot
     srv.app.rsp, srv.app.rsp_len, srv.app.think = c["rsp"], c["rsp_len"], c["think"]
     lab.net.plan = dict((int(k), tuple(v)) for k, v in (plan or {}).items())
     lab.net.silence = tuple(silence) if silence else None
@@ -184,7 +202,12 @@ def run_txn(cfg, plan=None, silence=None, fate=None, horizon=None):
 
     def watch(pdu):
         if cli.outcome_delivered:
-            late.append((VC.clk.now, bytes(pdu.pduData)))
+            try:
+                inv = RA.decode(RN.decode(bytes(pdu.pduData))["data"]).get("invoke")
+            except Exception:
+                inv = None
+            if inv in cli.delivered or inv is None:
+                late.append((VC.clk.now, bytes(pdu.pduData)))
         return orig_ind(pdu)
     cli.node.indication = watch
     if c["know"]:
@@ -193,13 +216,15 @@ def run_txn(cfg, plan=None, silence=None, fate=None, horizon=None):
                                 segmentationSupported=c["s_seg"], vendorID=999)
         iam.pduSource = L.Address(2)
         cli.app.deviceInfoCache.iam_device_info(iam)
-    req = make_request(L, c["req_len"], 2)
+    reqs = [make_request(L, c["req_len"], 2) for _ in range(c["nreq"])]
+    req = reqs[0]
     submit_error = None
     try:
-        if c["iocb"]:
-            cli.app.submit(req)
-        else:
-            cli.app.request(req)
+        for rq in reqs:
+            if c["iocb"]:
+                cli.app.submit(rq)
+            else:
+                cli.app.request(rq)
     except Exception as err:
         submit_error = "%s: %s" % (type(err).__name__, err)
     if horizon is None:
@@ -212,18 +237,19 @@ def run_txn(cfg, plan=None, silence=None, fate=None, horizon=None):
         runaway = True
     t_quiet = VC.clk.now
     obs = dict(cfg=c, outcomes=list(cli.app.outcomes), served=list(srv.app.served), frames=lab.frames(), quiescent=quiescent,
-               t_end=t_quiet, horizon=horizon, runaway=runaway, invoke=req.apduInvokeID, submit_error=submit_error,
+               t_end=t_quiet, horizon=horizon, runaway=runaway, invoke=req.apduInvokeID, invokes=[rq.apduInvokeID for rq in reqs], submit_error=submit_error,
                swallowed=[r for r in boot.swallowed.take() if r[0]],
                residue=dict(client_tr=len(cli.smap.clientTransactions), client_timers=len(cli.timers()),
                             server_tr=len(srv.smap.serverTransactions), server_timers=len(srv.timers()),
                             client_server_tr=len(cli.smap.serverTransactions), server_client_tr=len(srv.smap.clientTransactions),
                             queue_by_address=len(getattr(cli.app, "queue_by_address", {})),
-                            late_client_frames=[x[1].hex() for x in late]),
+                            late_client_frames=[x[1].hex() for x in late], at_outcome=list(cli.at_outcome)),
                states=dict(client=[t.state for t in cli.smap.clientTransactions], server=[t.state for t in srv.smap.serverTransactions]),
                pending_tasks=len(VC.tm.tasks))
     if c["iocb"] and cli.app.iocbs:
         io = cli.app.iocbs[0]
         obs["iocb"] = dict(state=io.ioState, has_response=io.ioResponse is not None, has_error=io.ioError is not None)
+        obs["iocbs"] = [dict(state=x.ioState, has_response=x.ioResponse is not None, has_error=x.ioError is not None) for x in cli.app.iocbs]
     return obs
 
 
